@@ -139,13 +139,14 @@ def run_binary(rec, rnd, count, cycles, case):
 
 def shards(tier, seed):
     hist = 6 if tier == "quick" else 60
-    return [{"seed": seed, "count": c, "hist": hist, "cycles": 300 if tier == "quick" else 1500} for c in range(1, 9)] + \
-           [{"seed": seed, "count": c, "hist": hist // 2, "cycles": 400 if tier == "quick" else 2000} for c in (12, 16)]
+    parts = 1 if tier == "quick" else 4  # thorough: 4 shards of 60 histories per count
+    return [{"seed": seed, "count": c, "hist": hist, "part": p, "cycles": 300 if tier == "quick" else 1500} for c in range(1, 9) for p in range(parts)] + \
+           [{"seed": seed, "count": c, "hist": hist // 2, "part": p, "cycles": 400 if tier == "quick" else 2000} for c in ((12, 16) if tier == "quick" else (9, 10, 12, 16, 24, 32)) for p in range(parts)]
 
 
 def run_shard(spec, rec):
     c = spec["count"]
-    for h in range(spec["hist"]):
+    for h in range(spec.get("part", 0) * spec["hist"], (spec.get("part", 0) + 1) * spec["hist"]):
         rnd = random.Random(f"C39:{spec['seed']}:{c}:{h}")
         run_onehot(rec, rnd, c, spec["cycles"], {"arbiter": "OneHotRoundRobin", "count": c, "history": h})
         run_binary(rec, rnd, c, spec["cycles"], {"arbiter": "RoundRobin", "count": c, "history": h})
